@@ -246,19 +246,20 @@ fn translate_json<M: AllMapper>(m: &M, va: u64) -> String {
                 MappedFrame::Size1GiB(f) => (f.start_address().as_u64(), 2),
             };
             format!(
-                "{{\"k\":\"mapped\",\"frame\":{},\"size\":{},\"off\":{},\"flags\":{}}}",
+                "{{\"k\":\"mapped\",\"frame\":{},\"size\":{},\"off\":{},\"flags\":{},\"fsz\":{}}}",
                 limbs(fa),
                 s,
                 limbs(offset),
-                limbs(flags.bits())
+                limbs(flags.bits()),
+                limbs(frame.size())
             )
         }
-        Some(TranslateResult::NotMapped) => "{\"k\":\"notmapped\",\"frame\":[0,0,0,0],\"size\":0,\"off\":[0,0,0,0],\"flags\":[0,0,0,0]}".to_string(),
+        Some(TranslateResult::NotMapped) => "{\"k\":\"notmapped\",\"frame\":[0,0,0,0],\"size\":0,\"off\":[0,0,0,0],\"flags\":[0,0,0,0],\"fsz\":[0,0,0,0]}".to_string(),
         Some(TranslateResult::InvalidFrameAddress(a)) => format!(
-            "{{\"k\":\"invalid\",\"frame\":{},\"size\":0,\"off\":[0,0,0,0],\"flags\":[0,0,0,0]}}",
+            "{{\"k\":\"invalid\",\"frame\":{},\"size\":0,\"off\":[0,0,0,0],\"flags\":[0,0,0,0],\"fsz\":[0,0,0,0]}}",
             limbs(a.as_u64())
         ),
-        None => "{\"k\":\"panic\",\"frame\":[0,0,0,0],\"size\":0,\"off\":[0,0,0,0],\"flags\":[0,0,0,0]}".to_string(),
+        None => "{\"k\":\"panic\",\"frame\":[0,0,0,0],\"size\":0,\"off\":[0,0,0,0],\"flags\":[0,0,0,0],\"fsz\":[0,0,0,0]}".to_string(),
     };
     let ta = match catch(|| m.translate_addr(v)) {
         Some(Some(p)) => Res::Ok(p.as_u64()),
@@ -977,11 +978,15 @@ pub fn run_random(out: &mut Out, seed: u64, n: u64, kinds: &[&str], mix: &str) {
         match kind {
             "mapped" => {
                 let mut m = unsafe { MappedPageTable::new(&mut *rootp, FrameMap) };
+                let got = [m.level_4_table() as *const PageTable as u64, m.level_4_table_mut() as *mut PageTable as u64, 0];
+                out.emit(Ev::new("accessors").str("kind", kind).words("want", &[rootp as u64, rootp as u64, 0]).words("got", &got));
                 run_behaviour(&mut m, &st, &mut r, len, out, mix);
             }
             "offset" => {
                 let wp = (st.offset + st.root) as *mut PageTable;
                 let mut m = unsafe { OffsetPageTable::new(&mut *wp, VirtAddr::new(st.offset)) };
+                let got = [m.level_4_table() as *const PageTable as u64, m.level_4_table_mut() as *mut PageTable as u64, m.phys_offset().as_u64()];
+                out.emit(Ev::new("accessors").str("kind", kind).words("want", &[wp as u64, wp as u64, st.offset]).words("got", &got));
                 run_behaviour(&mut m, &st, &mut r, len, out, mix);
             }
             "recursive" => {
